@@ -24,7 +24,7 @@ type fakeSession struct {
 type fakeServer struct {
 	pb.UnimplementedGNMIServer
 	mu      sync.Mutex
-	scripts map[string][]fakeSession // per target
+	scripts map[string][]fakeSession           // per target
 	custom  map[string][]*pb.SubscribeResponse // per target: raw responses, then EOF (C12)
 	opens   map[string]int
 	onEvent func(target, kind string, sess, id int)
